@@ -19,6 +19,7 @@ type Scenario struct {
 	Doc    string
 	Body   func()
 	Oracle mc.Oracle // nil = mc.DefaultOracle
+	MaxSteps int     // 0 = default (5000)
 }
 
 var Registry = map[string]func() *Scenario{}
